@@ -115,7 +115,14 @@ CHECKS = {
            'and the *_to_sparse converters are bounded only (the error profile that turns a triggered structural test into '
            'the table error is proved under C20).', technique=TECH),
  'C18': _b('Contracts of add_metadata / del_metadata (exactly the named ids and keys), MetadataMap.from_file on files from '
-           'the row grammar, _add_metadata. Bounded only.'),
+           'the row grammar, _add_metadata. Deductive part (Tier A; per-id metadata modelled as a tuple of dicts held by value): '
+           'Table.add_metadata (every key of the mapping entry of an id is set / overwritten on that id, every other key and '
+           'every other id keeps what it had, ids not in the table are ignored, an axis without metadata gets exactly the '
+           'mapping entries, the other axis is untouched, no entry is None afterwards) and Table.del_metadata (every named key '
+           'is gone from every id of the chosen axes, every other key keeps its value, an axis that was not chosen keeps its '
+           'metadata object, metadata becomes absent only when nothing is left or all of it was to be deleted). Assumed: '
+           'Table._cast_metadata (entries re-cast with the same items; absent when no entry holds anything). The mapping-file '
+           'parser and the add-metadata command are bounded only.', technique=TECH),
  'C19': _b('Every summary / report figure / export equals the value computed from the dense view (non-square tables so '
            'that axis mix-ups show). Deductive part (Tier A): Table.sum (axis mapping), nnz, get_table_density. One known '
            'finding (pandas sparse fill value).', technique=TECH),
